@@ -56,7 +56,14 @@ func rebootPersistedStore(config *Config, log *zap.SugaredLogger, stats tally.Sc
 			return nil, err
 		}
 		if !ok {
-			log.With("key", key).Warn("Could not reboot blob from disk - its parent directory is there but the blob is missing")
+			// A crash (e.g. in the middle of Delete, eviction or Create) can leave the blob's directory behind
+			// without a usable blob. Remove it: a leftover directory would make Create/MarkComplete of this key
+			// fail forever, and its stale sidecar files would be inherited by a re-created blob.
+			log.With("key", key).Warn("Could not reboot blob from disk - removing its leftover directory")
+			err = os.RemoveAll(pather.dirPath(key, complete))
+			if err != nil {
+				return nil, fmt.Errorf("remove leftover dir of blob that could not be rebooted: %w", err)
+			}
 			continue
 		}
 		if b.complete && b.evictable {
